@@ -213,7 +213,7 @@ def shared(tier):
     a = {}
     xf = extra_fens()
     if xf:
-        d = 2 if tier == "quick" else 3
+        d = 3       # (few-piece corner cases: depth 3 in both tiers - perft to depth 3 found the on-demand perft defect of 11.3)
         a["treex"] = art_tree(xf, d, ["pseudo", "san", "mirror"], "tree%dx" % d)
         a["attx"] = art_tree(xf, d - 1 if d > 2 else 2, ["pseudo", "att"], "attx")
     if tier == "quick":
@@ -284,7 +284,7 @@ def std_chess_check(prop, tier, art_names, perft=0, level="model_checking", extr
 
 
 def check_C01(tier):
-    ck = std_chess_check("C01", tier, ["tree", "walk"], perft=2 if tier == "quick" else 3,
+    ck = std_chess_check("C01", tier, ["tree", "walk"], perft=3,      # (compared as deep as the complete tree of a root group reaches)
                          extra=lambda ck, res: engine_games(ck, "C01", tier, {"move-not-legal", "legal-move-list"}))
     ck.assumptions += ["root corpus corpus/roots.fen (validated WellFormed by TLC)",
                        "the published perft numbers validate ChessRules.tla itself (check.py selftest)"]
